@@ -12,7 +12,8 @@ PROP = 'C11'
 LEVEL = 'exploration'
 RULE = ('HIST histories with boot files of varied size/content (isolinux-signed, hdemul MBRs, exact floppy sizes), media types, '
         'platform ids, efi sections, explicit load sizes, 1..32 entries, boot-info tables, hidden boot files, catalog names in each '
-        'namespace, edits before/after, rm_eltorito, restarts; every written image is read by isosim/dec_boot.py; non-trivial: '
+        'namespace (also unlinked again), edits before/after, rm_eltorito, restarts; the catalog read through one of its names before each '
+        'write must equal the mastered catalog; every written image is read by isosim/dec_boot.py; non-trivial: '
         '>= 3 accepted edits, >= 1 write and an El Torito catalog decoded at least once; distinct = distinct model shape fingerprints')
 BUDGET = {'quick': 40, 'thorough': 900}
 PROBES = ['catalog_read_before_write', 'catalog_decoded', 'sections_ge_2', 'hdemul', 'floppy', 'boot_info_table_checked', 'hidden_boot_file', 'rm_eltorito_checked',
